@@ -56,6 +56,7 @@ EXTRA = {
     'W10': [('S', {'A1': True, 'A2': 1, 'A3': 0, 'A4': False, 'A5': 1.0, 'B1': '=A1&A2&A3&A4', 'C1': '=SUM(A:A)+COUNT(A:B)'})],
     'W11': [('S', {'A1': 1, 'A2': True, 'A3': False, 'A4': 0, 'A5': 2, 'A6': 4, 'A7': 8, 'B1': '=A1&A2&A3&A4', 'C1': '=SUM(A:A)+COUNT(A:B)'})],
     'W12': [('S', {'A1': 5, 'A2': 6, 'C1': '=SUM(A:A)+COUNT(A:B)', 'D1': '=VLOOKUP(6,A:B,1,0)'})],
+    'W0': [('S', {}), ('T', {})],      # no cell at all
     # nested far deeper than the default recursion limit allows: refused in a fresh process - and after any history
     'WD': [('S', {'A1': '=' + 'SUM(' * 300 + '1' + ')' * 300, 'B1': 2})],
     # arguments spelled twice inside one call (anything that de-duplicates them through a set orders them by hash)
@@ -103,6 +104,8 @@ def plan(tier, seed):
     names = sorted({**WORKBOOKS, **EXTRA})
     phases.append({'name': 'process-history', 'cases': [{'first': a, 'then': b} for a in names for b in names],
                    'runner': 'run_history_pairs', 'chunk': 5})
+    # the written file is the returned text, for every workbook of the alphabet (a workbook without any cell included)
+    phases.append({'name': 'written-file-equals-text', 'cases': [{'wb': n} for n in names], 'runner': 'run_written', 'chunk': 4})
     from mc.props import c09_se
     phases += c09_se.phases(tier, seed)
     return phases
@@ -318,6 +321,8 @@ def texts_for(name):
         p = D.Parser().disable_safety_check().set_excel_file_path(paths()[name])
         if entry:
             title, cells = spec[0]
+            if not cells:
+                continue      # a workbook without cells has no entry cell to offer
             a = sorted(cells)[len(cells) // 2]
             col, row = D.split_a1(a)
             p.set_entrypoint_cell(D.Cell(title, col, row))
@@ -355,6 +360,43 @@ def run_seed(cases, stats):
         if diff:
             vio.append({'i': i, 'desc': {'clause': 'hashseed', 'outcome': 'TEXT_DIFFERS'}, 'expected': {k: base[k] for k in diff},
                         'observed': {k: got.get(k) for k in diff}})
+    return vio
+
+
+def run_written(cases, stats):
+    vio = []
+    spec_of = {**WORKBOOKS, **EXTRA}
+    for i, c in enumerate(cases):
+        name = c['wb']
+        spec = spec_of[name]
+        entries = [None]
+        if spec[0][1]:
+            a = sorted(spec[0][1])[len(spec[0][1]) // 2]
+            entries.append((spec[0][0],) + tuple(D.split_a1(a)))
+        for entry in entries:
+            for safety in (False, True):
+                p = D.Parser().set_excel_file_path(paths()[name])
+                p.enable_safety_check() if safety else p.disable_safety_check()
+                if entry:
+                    p.set_entrypoint_cell(D.Cell(*entry))
+                out = os.path.join(tempfile.gettempdir(), f'c09-written-{os.getpid()}.py')
+                if os.path.exists(out):
+                    os.remove(out)
+                got_w = outcome_of(lambda: p.write_translation(out) and open(out, encoding='utf-8', newline='').read())
+                got_t = outcome_of(p.get_translation)
+                fresh = D.Parser().set_excel_file_path(paths()[name])
+                fresh.enable_safety_check() if safety else fresh.disable_safety_check()
+                if entry:
+                    fresh.set_entrypoint_cell(D.Cell(*entry))
+                exp = outcome_of(fresh.get_translation)
+                stats['transitions'] += 3
+                stats['validated'] += 1
+                stats['out:' + exp[0]] += 1
+                if not (got_w == got_t == exp):
+                    vio.append({'i': i, 'desc': {'clause': 'file', 'wb': name, 'entry': bool(entry), 'safety': safety,
+                                                 'outcome': 'FILE_DIFFERS' if got_w[0] == exp[0] == 'TEXT' else got_w[0]},
+                                'expected': _brief(exp), 'observed': {'written': _brief(got_w), 'returned': _brief(got_t),
+                                                                       'lengths': [len(x[1]) if x[0] == 'TEXT' else None for x in (got_w, got_t, exp)]}})
     return vio
 
 
